@@ -81,8 +81,10 @@ def gen_value(rng, ann, ns):
     if ann == "date":
         return datetime.date(rng.randint(1, 9999), rng.randint(1, 12), rng.randint(1, 28))
     if ann == "datetime":
-        return datetime.datetime(rng.randint(1971, 2100), rng.randint(1, 12), rng.randint(1, 28), rng.randint(0, 23), rng.randint(0, 59), rng.randint(0, 59),
-                                 rng.choice([0, 0, 500000, 123456, 1]), tzinfo=tzs(rng))
+        tz = tzs(rng)
+        year = rng.randint(1971, 2100) if tz is not None or rng.random() < 0.7 else rng.choice([1, 999, 1000, 1582, 1900, 1969, 1970, 9999])
+        return datetime.datetime(year, rng.randint(1, 12), rng.randint(1, 28), rng.randint(0, 23), rng.randint(0, 59), rng.randint(0, 59),
+                                 rng.choice([0, 0, 500000, 123456, 1, 999999]), tzinfo=tz)
     if ann == "time":
         return datetime.time(rng.randint(0, 23), rng.randint(0, 59), rng.randint(0, 59), rng.choice([0, 0, 500000, 123000, 1000]))
     if ann == "timedelta":
